@@ -189,7 +189,7 @@ func JSONItemsFn(val *fastjson.Value) (Item, error) {
 		items := make(ItemCollection, 0)
 		for _, v := range it {
 			if it, _ := JSONLoadItem(v); it != nil {
-				items.Append(it)
+				items = append(items, it)
 			}
 		}
 		return items, nil
@@ -389,16 +389,16 @@ func JSONGetItems(val *fastjson.Value, prop string) ItemCollection {
 	case fastjson.TypeArray:
 		for _, v := range val.GetArray() {
 			if i, _ := JSONLoadItem(v); i != nil {
-				it.Append(i)
+				it = append(it, i)
 			}
 		}
 	case fastjson.TypeObject:
 		if i, _ := JSONLoadItem(val); i != nil {
-			it.Append(i)
+			it = append(it, i)
 		}
 	case fastjson.TypeString:
 		if iri := val.GetStringBytes(); len(iri) > 0 {
-			it.Append(IRI(iri))
+			it = append(it, IRI(iri))
 		}
 	}
 	if len(it) == 0 {
